@@ -501,6 +501,9 @@ class MarkovChain:
                     'init must be int, array_like of ints, or None'
                 )
 
+        # Negative indices within [-n, 0) count from the end, as usual
+        init_states = init_states % self.n
+
         # === set up array to store output === #
         X = np.empty((k, ts_length), dtype=int)
 
